@@ -296,7 +296,12 @@ class ProtocolContext:
         self._state.connection_lost()
 
     def pkt_received(self, pkt: Packet) -> Any:
-        self._state.pkt_rcvd(pkt)
+        # pkts that were filtered out by the protocol have not been via Message(pkt),
+        # and so pkt._hdr may yet raise (e.g. if the payload idx is inconsistent)
+        try:
+            self._state.pkt_rcvd(pkt)
+        except exc.PacketInvalid as err:  # cannot be an expected echo/reply
+            _LOGGER.debug("%s < %s(%s)", pkt, err.__class__.__name__, err)
 
     def pause_writing(self) -> None:
         self._state.writing_paused()
